@@ -195,3 +195,67 @@ Theorem C11_hypotheses_satisfiable :
             r_res (run_g i) = Ok "h+3+A0"%string 2.
 Proof. exact example_put. Qed.
 Print Assumptions C11_hypotheses_satisfiable.
+
+(* ---- the process-wide HTTP client pool (model/C11_pool.v = keepclient.go httpClient()): several KeepClients with
+   different (ApiInsecure, disk/proxy) configurations in one process; which timeouts a Put runs under.
+   hcfg = (request timeout, TLS handshake timeout, InsecureSkipVerify) of a pooled client; mk_client d ins nondisk =
+   the client built for that configuration from the Default*Timeout variables d; run_uses d p us = the clients
+   handed to the KeepClients us (TLS flag + lists given so far) one after the other starting from pool p;
+   use_nondisk = foundNonDiskSvc (sticky); timed timeout lat o = what putReplicas sees of an answer o that takes lat. ---- *)
+From AV Require Import model.C11_pool proofs.C11_pool_proofs.
+
+(* foundNonDiskSvc: set by any list ever given that has a (kept) service whose type is not "disk" *)
+Theorem C11_nondisk_sticky : forall ls st, k_nondisk (load_all st ls) = k_nondisk st || existsb has_nondisk ls.
+Proof. exact nondisk_sticky. Qed.
+Print Assumptions C11_nondisk_sticky.
+
+(* whatever KeepClients used the pool before (any pool whose entries are filed under their own key, in particular
+   the empty pool of a fresh process), every KeepClient is handed the client of ITS OWN configuration *)
+Theorem C11_pool_hands_out_own_config : forall d us p,
+  (forall a b c, pool_get p a b = Some c -> c = mk_client d a b) ->
+  run_uses d p us = map (fun u => mk_client d (u_insecure u) (use_nondisk u)) us.
+Proof. exact run_uses_own_config. Qed.
+Print Assumptions C11_pool_hands_out_own_config.
+
+(* the boolean oracle of stage c11pool and what it means: own TLS setting; proxy timeouts when the list in force has
+   a non-disk service, disk timeouts when no list ever had one, one of the two in between *)
+Theorem C11_pool_spec_reflects : forall d us cs,
+  uses_ok_b d us cs = true <->
+  Forall2 (fun u c =>
+    h_insecure c = u_insecure u /\
+    (has_nondisk (current_list (u_lists u)) = true -> c = mk_client d (u_insecure u) true) /\
+    (existsb has_nondisk (u_lists u) = false -> c = mk_client d (u_insecure u) false) /\
+    (c = mk_client d (u_insecure u) true \/ c = mk_client d (u_insecure u) false)) us cs.
+Proof. exact uses_ok_b_reflects. Qed.
+Print Assumptions C11_pool_spec_reflects.
+
+Theorem C11_pool_model_meets_spec : forall d us p,
+  (forall a b c, pool_get p a b = Some c -> c = mk_client d a b) -> uses_ok_b d us (run_uses d p us) = true.
+Proof. exact pool_model_meets_spec. Qed.
+Print Assumptions C11_pool_model_meets_spec.
+
+(* regression witness: filing a new client under the transposed key [nonDisk][insecure] hands a verified-TLS proxy
+   KeepClient the 20 s, unverified client of an insecure-TLS disk KeepClient that was used first *)
+Theorem C11_transposed_pool_variant_refuted :
+  run_uses_transposed witness_defaults [] witness_uses = [HC 20000 4000 true; HC 20000 4000 true] /\
+  uses_ok_b witness_defaults witness_uses (run_uses_transposed witness_defaults [] witness_uses) = false /\
+  run_uses witness_defaults [] witness_uses = [HC 20000 4000 true; HC 300000 10000 false].
+Proof. exact transposed_pool_refuted. Qed.
+Print Assumptions C11_transposed_pool_variant_refuted.
+
+(* slow responses: a KeepClient with a non-disk service waits DefaultProxyRequestTimeout for an answer, whoever used
+   the pool before; and a Put succeeds when want writable services accept every attempt WITHIN the timeout *)
+Theorem C11_proxy_client_waits_proxy_timeout : forall d p ins lat o,
+  (forall a b c, pool_get p a b = Some c -> c = mk_client d a b) -> (lat < df_proxy_req d)%N ->
+  timed (h_timeout (fst (http_client d p ins true))) lat o = o.
+Proof. exact proxy_client_waits_proxy_timeout. Qed.
+Print Assumptions C11_proxy_client_waits_proxy_timeout.
+
+Theorem C11_put_succeeds_with_slow_accepting_services : forall i timeout lat,
+  NoDup (g_order i) -> oversize i = false ->
+  g_want i <= List.length (filter (fun x => forallb (fun a => (lat x a <? timeout)%N &&
+                                             (is200 (exp_answer i x a) && (1 <=? o_rep (exp_answer i x a))))
+                                           (seq 0 (S (g_retries i)))) (sv_of i)) ->
+  exists l n, r_res (run_g (with_latency i timeout lat)) = Ok l n.
+Proof. exact put_succeeds_with_slow_accepting_services. Qed.
+Print Assumptions C11_put_succeeds_with_slow_accepting_services.
